@@ -215,7 +215,7 @@ def main():
         "checks": checks,
         "not_applicable": na,
         "notes": "Solver-based checking of the real code. Exit 0 = held on everything explored, 1 = replayed violation (VIOLATION line), "
-                 "2 = inconclusive / harness error (never reported as success). known_findings.json lists genuine defects (open -> KNOWN-FINDING line, fixed -> 'fix:' commit in /repo).",
+                 "2 = inconclusive / harness error (never reported as success). known_findings.json lists genuine defects (open -> KNOWN-FINDING line, fixed -> 'fix:' commit in /repo). Mutation evidence: seeded/ (220 breaking changes written by sub-agents from the property text alone, MATRIX.json: which check reports which) and benign/ (57 behaviour-preserving refactorings, MATRIX.json: every quick check stays at exit 0); DESIGN.md 7.5, 7.9-7.11.",
     }
     json.dump(m, open(os.path.join(V, "MANIFEST.json"), "w"), indent=1)
     print("checks:", [c["property_id"] for c in checks], "n/a:", [n["property_id"] for n in na])
